@@ -221,6 +221,7 @@ type Frame struct {
 	frameAssumed bool   // frame obligations are assumed (proved by another contract of the same function)
 	callLines    [2]int // lines holding the assumed postconditions of the most recent call
 	pendingArgs  []Val
+	lastRes      Val // result of the call an 'after' ghost block is attached to (#ret, #ret0, #ret1, ...)
 	renamed      map[string]string // contract name -> current name (positional re-binding, rename.go)
 	callPre      *State            // state just before the most recent call (at(call, e) in 'after call' ghost blocks)
 }
